@@ -32,21 +32,33 @@ PID = 'C19'
 TITLE = 'Re-batching conserves rows, order and column alignment'
 LEAN_MODULES = ['MlModel.Properties.C19', 'MlModel.Properties.C19Pipe', 'MlModel.Witness.C19']
 TRUSTED = [
-    'TreeFn._iterate is modelled as two re-batchers around one call per batch (treeFn); tree key selection / output '
-    'assembly (_get_inputs/_get_outputs/_normalize_outputs) is exercised by the via-cases but not modelled',
-    'modelled, not verified: more_itertools.sliced/flatten/padded, np.concatenate/np.pad, zip(strict=True) '
-    '(their list semantics are written out in Model/Rebatch.lean)',
+    'TreeFn._iterate is modelled as a chain of lazy iterators (Model/RebatchGen.lean: first re-batcher, map of the guarded call, '
+    'iter_ignore_error, second re-batcher; = the list-level treeFn when nothing fails, C19_treefn_gen_total); tree key selection / '
+    'output assembly (_get_inputs/_get_outputs/_normalize_outputs) is exercised by the via-cases but not modelled',
+    'modelled, not verified: more_itertools.sliced/flatten/padded, np.concatenate/np.pad, zip(strict=True), built-in map (resumable), '
+    'generator finalisation (their list / pull semantics are written out in Model/Rebatch.lean, Model/RebatchGen.lean)',
+    'elements are abstract in the model: columns travel as row ids, the harness maps ids back to the typed values (elem / expect_col) '
+    'before comparing (type, repr) of every element, dtype and shape of every emitted column; that numpy stores the pad value in the '
+    "column's dtype (np.asarray(pad).astype(dtype)) and keeps the dtype of a column is computed by the harness, not by the model",
 ]
-ASSUMPTIONS = ['rows are opaque values (ints in the correspondence; for ndarray columns with ndim 2/3 a row is a constant vector / '
-               'matrix carrying its id, so a torn or glued row is visible); containers are list/tuple/ndarray, '
-               'plus bytes as the representative of an unsupported container kind']
+ASSUMPTIONS = ['rows are opaque values: ints, non-integral floats, float32, strings of varying length (fixed-width <U8 arrays), bools, None, '
+               'mixed Python objects, rows that are lists, vectors / matrices of distinct floats; one dtype per array column for the whole '
+               'stream (heterogeneous dtypes across batches of one column are promoted by np.concatenate: outside the domain); pad values '
+               'that numpy can store in every array column of the case (a str pad on a float column raises ValueError in np.pad; object '
+               'arrays are not padded); containers are list/tuple/ndarray, plus bytes as the representative of an unsupported kind',
+               'failing calls: the batch function raises RuntimeError for the calls that see a poisoned row (re-raised as ValueError by '
+               '_maybe_call_fn); one function of the library keeps state (a call counter)']
 RULE = ('direct cases: small-exhaustive over batch-size sequences (len<=3, sizes 0..4 quick / len<=4, sizes 0..6 thorough) x targets x '
         'column counts x container kinds (list, tuple, 1-D array, arrays whose rows are vectors / 2x2 matrices) x pad, then random long streams and a ~10% malformed stream '
-        '(ragged columns, wrong column count, unsupported container); non-trivial = at least 2 input batches '
+        '(ragged columns, wrong column count, unsupported container); typed sweep: every container kind x element family (int, float, float32, str, bool, None, '
+        'mixed, nested) x pad value (none, int, float, str, bool, numpy scalars: mostly of another dtype than the data) x 7 size sequences that pad / merge / carry, '
+        'alone and next to a column of another kind / family, + random mixed streams; non-trivial = at least 2 input batches '
         'and the target size differs from some input batch size; distinct = distinct canonical case JSON. '
         'via cases: the same size sequences pushed through Pipeline.apply/select/batch/assign with fn_batch_size x batch_size '
         'x row functions (row-preserving and row-count-changing: twice / keep_even / explode / none, with fn_batch_size ==, != batch_size and 0) '
-        'x output container kinds, compared with the Lean model of TreeFn._iterate (treeFn)')
+        'x output container kinds, compared with the Lean model of TreeFn._iterate (treeFnGen); failing calls: 13 streams x 5 functions (one with state) x '
+        'ignore_error on/off x ONE failing call at EVERY call position, pairs, all calls, none, + random failure sets (carry buffer empty / non-empty at the '
+        'failure, rows after it: enforced), + ragged streams under ignore_error')
 
 KINDS = ['list', 'tuple', 'array']
 # 'array2' / 'array3': numpy columns whose rows are vectors of width 3 / 2x2 matrices (ndim 2 / 3).  Rows stay
@@ -375,7 +387,17 @@ ROW_FNS = {
     'keep_even': lambda r: [list(r)] if r[0] % 2 == 0 else [],
     'explode': lambda r: [list(r) for _ in range(r[0] % 3)],
     'none': lambda r: [],
+    # the one function WITH STATE (a call counter; see `apply_g`): row-preserving as far as sizes go
+    'callno': lambda r: [list(r)],
 }
+
+
+def apply_g(case, k, r):
+  """Output rows of the row function for input row r seen by the k-th call (0-based, failing calls counted)."""
+  if case['g'] == 'callno':
+    return [[x + 1000 * k for x in r]]
+  return ROW_FNS[case['g']](list(r))
+
 ROW_PRESERVING = ['affine', 'dup', 'first', 'id', 'rev', 'sum']
 ROW_CHANGING = ['explode', 'keep_even', 'none', 'twice']
 
@@ -483,7 +505,7 @@ def gen_fail(ctx):
              ((3, 1, 2), 0, 0), ((2, 2, 2), 0, 0), ((7, 2), 3, 2)]
   for si, (sizes, fb, b) in enumerate(streams):
     ncalls = len(regroup(sizes, fb))
-    for gi, g in enumerate(['id', 'sum', 'twice', 'keep_even']):
+    for gi, g in enumerate(['id', 'sum', 'twice', 'keep_even', 'callno']):
       if quick and (si + gi) % 2:
         continue
       for skip in (True, False):
@@ -501,7 +523,7 @@ def gen_fail(ctx):
     b = rng.choice([0, 1, 2, 3, 4, 5, 7])
     fb = rng.choice([0, 1, 2, 3, 4, b]) if b else 0     # fn_batch_size needs batch_size
     nin = rng.randrange(1, 4)
-    g = rng.choice(ROW_PRESERVING + ROW_CHANGING)
+    g = rng.choice(ROW_PRESERVING + ROW_CHANGING + ['callno', 'callno'])
     ncalls = len(regroup(sizes, fb))
     bad = [k for k in range(ncalls) if rng.random() < rng.choice([0.15, 0.4])] or [rng.randrange(ncalls)]
     yield mk(sizes, fb, b, g, bad, rng.random() < 0.7, nin, [rng.choice(KINDS5) for _ in range(nin)],
@@ -517,6 +539,8 @@ def fail_arms(case):
   g, b, n = ROW_FNS[case['g']], case['target'], len(groups)
   mode = 'skip-on' if case.get('ignore_error') else 'skip-off'
   out = {f'fail:{mode}', f'fail:{mode}:' + ('fb=0' if case['fn_batch'] == 0 else 'fb>0'), 'fail:several' if len(failing) > 1 else 'fail:single'}
+  if case['g'] == 'callno':
+    out.add(f'fail:{mode}:stateful-fn')
   if len(failing) == n:
     out.add(f'fail:{mode}:all-calls')
   if len(failing) == 1:
@@ -540,7 +564,7 @@ def fail_arms(case):
 FAIL_POSITIONS = [(n, k) for n in (3, 4, 5, 6) for k in range(n)]
 REQUIRED_FAIL = ([f'fail:{m}:carry-{c}:{w}' for m in ('skip-on', 'skip-off') for c in ('nonempty', 'empty') for w in ('first', 'middle', 'last')
                   if not (c == 'nonempty' and w == 'first')] +
-                 [f'fail:{m}:{x}' for m in ('skip-on', 'skip-off') for x in ('fb=0', 'fb>0', 'b=0', 'all-calls', 'carry-nonempty:rows-after')] +
+                 [f'fail:{m}:{x}' for m in ('skip-on', 'skip-off') for x in ('fb=0', 'fb>0', 'b=0', 'all-calls', 'carry-nonempty:rows-after', 'stateful-fn')] +
                  ['fail:several', 'fail:single', 'fail:none'] +
                  [f'failpos:{n}:{k}:{m}' for n, k in FAIL_POSITIONS for m in ('skip-on', 'skip-off')])
 
@@ -730,11 +754,14 @@ def _batch_fn(case):
 
   poison = set(case.get('poison') or ())
 
+  calls = [0]     # private state of the function: how often it has been called
+
   def fn(*cols):
+    k, calls[0] = calls[0], calls[0] + 1
     rows = list(zip(*[col_ids(c) for c in cols]))
     if any(r[0] in poison for r in rows):
       raise RuntimeError(f'cannot score rows {[r[0] for r in rows]}')     # `_maybe_call_fn` re-raises it as ValueError
-    outs = [o for r in rows for o in g(list(r))]
+    outs = [o for r in rows for o in apply_g(case, k, list(r))]
     res = tuple(mk_col(k, [o[c] for o in outs]) for c, k in enumerate(kinds_out))
     if len(res) == 1 and bare and kinds_out[0] != 'tuple':
       return res[0]          # a bare column: `_normalize_outputs` has to wrap it
@@ -976,8 +1003,8 @@ def oracle_via(case, obs):
   out = obs['out']
   nout = n_out(case['g'], nin)
   kinds_out = kinds_out_of(case)
-  groups = call_groups(case)
-  failing = [i for i, grp in enumerate(groups) if group_fails(case, grp)]
+  groups = list(enumerate(call_groups(case)))      # (call number, rows of the call)
+  failing = [i for i, grp in groups if group_fails(case, grp)]
   skip = bool(case.get('ignore_error'))
   if failing and not skip:
     # the first failing call ends the run with its error; what came out before are complete batches of rows of the EARLIER calls
@@ -989,8 +1016,9 @@ def oracle_via(case, obs):
       return f"well-formed stream raised {obs['err']} through Pipeline.{case['via']}" + (' with ignore_error' if skip else '')
     # skipping on: a failing call drops exactly the rows of its own group; every row returned by a successful call was handed
     # to the output re-batcher and has to come out, in order (also the rows it carried over when a later call failed)
-    groups, partial = [grp for i, grp in enumerate(groups) if i not in failing], False
-  want_rows = [o for grp in groups for r in grp for o in g(r)]     # flat-map of the row function over the rows of those calls
+    groups, partial = [(i, grp) for i, grp in groups if i not in failing], False
+  # flat-map of the row function over the rows of those calls (a function with state sees its call number)
+  want_rows = [o for k, grp in groups for r in grp for o in apply_g(case, k, r)]
   if partial and b > 0:
     want_rows = want_rows[:len(want_rows) // b * b]                # rows held back by the re-batcher die with the error
   if b > 0:
@@ -1000,7 +1028,7 @@ def oracle_via(case, obs):
     if partial and out and len(out[-1][0]['v']) != b:
       return 'an incomplete batch was emitted before the error'
   else:       # no re-batching at all: one output batch per call, holding what the function returns for it
-    if [len(o[0]['v']) for o in out] != [sum(len(g(r)) for r in grp) for grp in groups]:
+    if [len(o[0]['v']) for o in out] != [sum(len(g(r)) for r in grp) for _, grp in groups]:
       return 'batch_size=0 changed the batch boundaries'
   for c in range(nout):
     bad = check_rows(out, c, kinds_out[c] if c < len(kinds_out) else 'list', 'int', [r[c] for r in want_rows], None, 'output')
